@@ -59,19 +59,31 @@ pub fn f1(thorough: bool) -> Vec<Case> {
             let (ba, bb) = if ta == tb || thorough { (int_bounds(ta), int_bounds(tb)) } else { (small_bounds(ta), small_bounds(tb)) };
             for &x in &ba {
                 for &y in &bb {
-                    let decls = |r: Decl| vec![Decl::init("a", int(ta, x)), Decl::init("b", int(tb, y)), r];
+                    // the LINT minimum cannot be written as a literal: start one above and step down
+                    let lmin = Ty::LInt.min();
+                    let fix = |t: Ty, v: i128| if t == Ty::LInt && v == lmin { v + 1 } else { v };
+                    let mut pre: Vec<S> = Vec::new();
+                    if ta == Ty::LInt && x == lmin {
+                        pre.push(assign("a", bin(Op::Sub, var("a"), lit(int(Ty::LInt, 1)))));
+                    }
+                    if tb == Ty::LInt && y == lmin {
+                        pre.push(assign("b", bin(Op::Sub, var("b"), lit(int(Ty::LInt, 1)))));
+                    }
+                    let decls = |r: Decl| vec![Decl::init("a", int(ta, fix(ta, x))), Decl::init("b", int(tb, fix(tb, y))), r];
                     for op in ARITH {
+                        let mut body = pre.clone();
+                        body.push(assign("r", bin(op, var("a"), var("b"))));
                         out.push(case(
                             "F1",
                             format!("{}:{}x{}:var", op.name(), ta.name(), tb.name()),
-                            prog(decls(Decl::new("r", tr)), vec![assign("r", bin(op, var("a"), var("b")))]),
+                            prog(decls(Decl::new("r", tr)), body),
                             1,
                             clean,
                         ));
                     }
                     // all six comparisons in one program (they cannot fault)
-                    let mut vars = vec![Decl::init("a", int(ta, x)), Decl::init("b", int(tb, y))];
-                    let mut body = Vec::new();
+                    let mut vars = vec![Decl::init("a", int(ta, fix(ta, x))), Decl::init("b", int(tb, fix(tb, y)))];
+                    let mut body = pre.clone();
                     for (i, op) in CMP.iter().enumerate() {
                         vars.push(Decl::new(&format!("c{i}"), Ty::Bool));
                         body.push(assign(&format!("c{i}"), bin(*op, var("a"), var("b"))));
@@ -511,6 +523,67 @@ pub fn f4(thorough: bool) -> Vec<Case> {
         let f = S::For { var: "i".into(), from: ulit(int(Ty::DInt, 1)), to: ulit(int(Ty::DInt, 3)), by: None, body: vec![inc("k0")] };
         out.push(case("F4u", format!("for:{}:untyped-bounds", t.name()), prog(vars, vec![f, assign("i", ulit(int(Ty::DInt, 0)))]), 2, true));
     }
+    // loop kind x control statement x trigger iteration x limit (incl. the iteration at which the
+    // loop condition flips), and every (outer, inner) nesting with the control statement inside
+    let dl = |x: i128| lit(int(Ty::DInt, x));
+    let mk_loop = |kind: &str, limit: i128, trig: i128, ctl: Option<S>, nvar: &str, pre: &str, post: &str, extra: Vec<S>| -> Vec<S> {
+        let mut body = vec![inc(pre)];
+        let cond_var = if kind == "for" { format!("f{nvar}") } else { nvar.to_string() };
+        if let Some(c) = ctl {
+            body.push(S::If(vec![(bin(Op::Eq, var(&cond_var), dl(trig)), vec![c])], None));
+        }
+        body.extend(extra);
+        body.push(inc(post));
+        match kind {
+            "for" => vec![
+                S::For { var: cond_var.clone(), from: dl(1), to: dl(limit), by: None, body },
+                assign(&cond_var, dl(0)),
+            ],
+            "while" => {
+                let mut b = vec![assign(nvar, bin(Op::Add, var(nvar), dl(1)))];
+                b.extend(body);
+                vec![assign(nvar, dl(0)), S::While(bin(Op::Lt, var(nvar), dl(limit)), b)]
+            }
+            _ => {
+                let mut b = vec![assign(nvar, bin(Op::Add, var(nvar), dl(1)))];
+                b.extend(body);
+                vec![assign(nvar, dl(0)), S::Repeat(b, bin(Op::Ge, var(nvar), dl(limit)))]
+            }
+        }
+    };
+    let loop_vars = || {
+        let mut v = counters(4);
+        for n in ["n", "m", "fn", "fm"] {
+            v.push(Decl::init(n, int(Ty::DInt, 0)));
+        }
+        v
+    };
+    for kind in ["for", "while", "repeat"] {
+        for (cname, ctl) in [("none", None), ("exit", Some(S::Exit)), ("continue", Some(S::Continue))] {
+            for limit in 1..=3i128 {
+                for trig in 1..=limit {
+                    if ctl.is_none() && trig > 1 {
+                        continue;
+                    }
+                    let body = mk_loop(kind, limit, trig, ctl.clone(), "n", "k0", "k1", vec![]);
+                    let pos = if trig == limit { "last" } else if trig == 1 { "first" } else { "middle" };
+                    out.push(case("F4", format!("loopctl:{kind}:{cname}:{pos}"), prog(loop_vars(), body), 2, true));
+                }
+            }
+        }
+    }
+    for outer in ["for", "while", "repeat"] {
+        for inner in ["for", "while", "repeat"] {
+            for (cname, ctl) in [("exit", S::Exit), ("continue", S::Continue)] {
+                for trig in [1i128, 2] {
+                    // the control statement sits in the inner loop and must not affect the outer one
+                    let inner_stmts = mk_loop(inner, 2, trig, Some(ctl.clone()), "m", "k2", "k3", vec![]);
+                    let body = mk_loop(outer, 2, 9, None, "n", "k0", "k1", inner_stmts);
+                    out.push(case("F4", format!("loopctl-nested:{outer}>{inner}:{cname}"), prog(loop_vars(), body), 2, true));
+                }
+            }
+        }
+    }
     // WHILE / REPEAT with EXIT / CONTINUE, nested loops, RETURN
     for limit in [0i128, 1, 3] {
         for shape in 0..6 {
@@ -755,6 +828,18 @@ pub fn f6() -> Vec<Case> {
             body: vec![assign("total", bin(Op::Add, bin(Op::Mul, var("d"), var("gain")), var("bias")))],
         };
         let insti = |n: &str| Decl { name: n.into(), ty: TyX::Fb("Ini".into()), init: None };
+        {
+            // bind the input to another value, then omit it: the previous value (not the
+            // declared initial value) is used
+            let body = vec![
+                S::If(vec![(bin(Op::Eq, var("c"), l(1)), vec![S::FbCall("fa".into(), vec![Arg::In("d".into(), l(2)), Arg::In("gain".into(), l(5))])])], Some(vec![S::FbCall("fa".into(), vec![Arg::In("d".into(), l(1))])])),
+                assign("ra", E::Fld("fa".into(), "total".into())),
+                assign("c", bin(Op::Add, var("c"), l(1))),
+            ];
+            let mut p = prog(vec![insti("fa"), Decl::new("ra", Ty::Int), Decl::init("c", int(Ty::Int, 0))], body);
+            p.fbs.push(fbi.clone());
+            out.push(case("F6i", "fb:omitted-input-with-initializer-keeps-previous-value".into(), p, 4, true));
+        }
         for called in [false, true] {
             let mut body = Vec::new();
             if called {
@@ -1036,6 +1121,43 @@ pub fn f9() -> Vec<Case> {
     out
 }
 
+/// F10: a value-dependent fault (division by zero in cycle 2) placed at every kind of
+/// expression position, including initialisers and argument/target expressions; outcome class
+/// and call frames only.
+pub fn f10() -> Vec<Case> {
+    const PRELUDE: &str = "FUNCTION Fl : DINT\nVAR_INPUT a : DINT; d : DINT; END_VAR\nVAR ratio : DINT := a / d; END_VAR\n    Fl := ratio;\nEND_FUNCTION\n\nFUNCTION Add2 : DINT\nVAR_INPUT a : DINT; b : DINT; END_VAR\n    Add2 := a + b;\nEND_FUNCTION\n\nFUNCTION Io : DINT\nVAR_IN_OUT x : DINT; END_VAR\nVAR_OUTPUT o : DINT; END_VAR\n    x := x + 1;\n    o := x;\n    Io := x;\nEND_FUNCTION\n\nFUNCTION_BLOCK Fbt\nVAR_INPUT d : DINT; END_VAR\nVAR_OUTPUT q : DINT; END_VAR\nVAR_TEMP t : DINT; END_VAR\nMETHOD PUBLIC M : DINT\nVAR_INPUT md : DINT; END_VAR\nVAR ml : DINT := 10 / md; END_VAR\n    M := ml;\nEND_METHOD\n    t := 10 / d;\n    q := t;\nEND_FUNCTION_BLOCK\n\n";
+    let sites: &[(&str, &str)] = &[
+        ("function-local-initializer", "r := Fl(10, z);"),
+        ("method-local-initializer", "r := fb.M(md := z);"),
+        ("fb-body", "fb(d := z);"),
+        ("fb-argument", "fb(d := 10 / z);"),
+        ("function-second-argument", "r := Add2(Fl(1, 1), 10 / z);"),
+        ("function-first-argument", "r := Add2(10 / z, Fl(1, 1));"),
+        ("nested-call-argument", "r := Add2(Add2(1, 10 / z), 2);"),
+        ("assignment-target-index", "arr[5 / z] := 1;"),
+        ("rvalue-index", "r := arr[5 / z];"),
+        ("for-end-bound", "FOR i := 1 TO 10 / z DO r := r + 1; END_FOR;"),
+        ("for-start-bound", "FOR i := 10 / z TO 12 DO r := r + 1; END_FOR;"),
+        ("for-step", "FOR i := 1 TO 3 BY 1 / z DO r := r + 1; END_FOR;"),
+        ("case-selector", "CASE 10 / z OF 10: r := 1; ELSE r := 2; END_CASE;"),
+        ("if-condition", "IF 10 / z = 10 THEN r := 1; END_IF;"),
+        ("elsif-condition", "IF r = 77 THEN r := 1; ELSIF 10 / z = 10 THEN r := 2; END_IF;"),
+        ("while-condition", "WHILE r < 10 / z DO r := r + 5; END_WHILE;"),
+        ("repeat-condition", "REPEAT r := r + 1; UNTIL 10 / z >= 1 END_REPEAT;"),
+        ("inout-function-after-write", "r := Io(x := v, o => w) + 10 / z;"),
+        ("output-target-index", "r := Io(x := v, o => arr[5 / z]);"),
+        ("in-loop-in-function-call", "FOR i := 1 TO 2 DO r := Add2(r, Fl(i, z)); END_FOR;"),
+    ];
+    let mut out = Vec::new();
+    for (name, stmt) in sites {
+        let text = format!(
+            "{PRELUDE}PROGRAM Main\nVAR\n    z : DINT := 1; r : DINT; i : DINT; v : DINT; w : DINT;\n    arr : ARRAY[0..5] OF DINT;\n    fb : Fbt;\nEND_VAR\n    {stmt}\n    z := 0;\nEND_PROGRAM\n"
+        );
+        out.push(raw("F10", &format!("fault-at:{name}"), &text, 3));
+    }
+    out
+}
+
 /// The whole corpus except the recursion family, simplest first.
 pub fn corpus(thorough: bool) -> Vec<Case> {
     let mut out = Vec::new();
@@ -1048,5 +1170,6 @@ pub fn corpus(thorough: bool) -> Vec<Case> {
     out.extend(f7());
     out.extend(f8());
     out.extend(f9());
+    out.extend(f10());
     out
 }
